@@ -280,6 +280,15 @@ Definition dosing_agree (a b : obj) : bool :=
   | OModel x, OModel y => zip_all stmt_dosing_agree (m_statements strG x) (m_statements strG y)
   | _, _ => true end.
 
+(* tool options (a frozenmapping: == is order blind) are written and encoded in insertion order *)
+Definition step_tool_keys (s : step strG) : list pkey :=
+  match s with StEst _ e => map fst (co_tool (es_common strG e)) | StSim _ x => map fst (co_tool (ss_common x)) end.
+Definition tool_order_same (a b : obj) : bool :=
+  match a, b with
+  | OModel x, OModel y =>
+      list_eqb (list_eqb pkey_same) (map step_tool_keys (m_steps strG x)) (map step_tool_keys (m_steps strG y))
+  | _, _ => true end.
+
 Definition pverdict (c : pcase) : list nat :=
   let a := p_a c in let b := p_b c in
   let texts := pyv_same (normalise (obj_encode a)) (normalise (obj_encode b)) in
@@ -300,7 +309,7 @@ Definition pverdict (c : pcase) : list nat :=
   tag (p_key_stable c) 15 ++
   (* different data => different key *)
   tag (match p_key_eq c with Some true => p_same_ds c | _ => true end) 21 ++
-  tag (dosing_agree a b) 209 ++
+  tag (dosing_agree a b) 209 ++ tag (tool_order_same a b) 210 ++
   tag (derivs_free a && derivs_free b) 201 ++
   tag (obj_no_nan a && obj_no_nan b) 205.
 
@@ -314,3 +323,80 @@ Record fcase := mkF {
 }.
 Definition fverdict (c : fcase) : list nat :=
   tag (oobj_same (obj_from_dict (f_class c) (f_dict c)) (f_back c)) 3.
+
+(* ------------------------------------------------------------------------------------------ *)
+(* two datasets: DataFrame.equals, DatasetHash                                                 *)
+(* ------------------------------------------------------------------------------------------ *)
+Record dcase := mkD {
+  d_a : frame; d_b : frame;
+  d_equals : bool;               (* a.equals(b) *)
+  d_hash_eq : bool;              (* str(DatasetHash(a)) == str(DatasetHash(b)) *)
+  d_stable : bool                (* both hashes are the same in every interpreter process *)
+}.
+Definition index_kind_same (a b : frame) : bool :=
+  match f_index a, f_index b with IRange _ _ _, IRange _ _ _ | ILabels _ _ _, ILabels _ _ _ => true | _, _ => false end.
+Definition index_name_of (f : frame) : option string := match f_index f with ILabels _ _ n => n | IRange _ _ _ => None end.
+Definition index_name_same (a b : frame) : bool := opt_str_eqb (index_name_of a) (index_name_of b).
+Definition index_elided (f : frame) : bool :=
+  match index_view_of (f_index f) with VTrunc _ _ _ _ _ => true | _ => false end.
+Definition cells_bit_same (a b : frame) : bool :=
+  negb (list_eqb (list_eqb cell_equals) (f_rows a) (f_rows b)) || list_eqb (list_eqb cell_same) (f_rows a) (f_rows b).
+Definition dverdict (c : dcase) : list nat :=
+  let a := d_a c in let b := d_b c in
+  tag (Bool.eqb (frame_equals a b) (d_equals c)) 31 ++
+  (* the hash is a function of ds_input and of nothing else *)
+  tag (Bool.eqb (ds_input_same a b) (d_hash_eq c)) 30 ++
+  (* equal frames => same hash ; different frames => different hash ; same hash in every process *)
+  tag (negb (d_equals c) || d_hash_eq c) 23 ++
+  tag (d_equals c || negb (d_hash_eq c)) 24 ++
+  tag (d_stable c) 25 ++
+  tag (index_kind_same a b) 211 ++ tag (negb (index_elided a && index_elided b)) 212 ++ tag (cells_bit_same a b) 213 ++
+  tag (index_name_same a b) 214.
+
+(* ------------------------------------------------------------------------------------------ *)
+(* a results object through to_json / read_results                                            *)
+(* ------------------------------------------------------------------------------------------ *)
+(* tables and logs are identified with the dictionaries _df_to_json / Log.to_dict produce *)
+Definition jtbl := list (pkey * pyv).
+Definition RF := rfield jtbl jtbl.
+Definition Res := mkResults jtbl jtbl.
+Definition FPl : pyv -> RF := FPlain jtbl jtbl.
+Definition FFr : jtbl -> RF := FFrame jtbl jtbl.
+Definition FSe : jtbl -> RF := FSeries jtbl jtbl.
+Definition FLo : jtbl -> RF := FLog jtbl jtbl.
+Definition FMo : RF := FModel jtbl jtbl.
+Definition FPa : string -> RF := FPath jtbl jtbl.
+Definition FOt : RF := FOther jtbl jtbl.
+Definition jenc := encode_results jtbl (fun t => t) jtbl (fun l => l).
+(* Log.from_dict takes the entries in order of d.values(); Log.to_dict numbers them 0, 1, ... again *)
+Definition rekey (d : jtbl) : jtbl :=
+  map (fun ikv => (KInt (Z.of_nat (fst ikv)), snd (snd ikv))) (combine (seq 0 (List.length d)) d).
+Definition jdec := decode_results jtbl (fun d => Some d) jtbl (fun d => Some (rekey d)).
+Definition rfield_same (a b : RF) : bool :=
+  match a, b with
+  | FPlain _ _ x, FPlain _ _ y => pyv_same x y
+  | FFrame _ _ x, FFrame _ _ y | FSeries _ _ x, FSeries _ _ y | FLog _ _ x, FLog _ _ y => pyv_same (PDict x) (PDict y)
+  | FModel _ _, FModel _ _ | FOther _ _, FOther _ _ => true
+  | FPath _ _ x, FPath _ _ y => String.eqb x y
+  | _, _ => false end.
+Definition results_same (a b : results jtbl jtbl) : bool :=
+  String.eqb (r_module _ _ a) (r_module _ _ b) && String.eqb (r_class _ _ a) (r_class _ _ b)
+  && list_eqb (fun x y => String.eqb (fst x) (fst y) && rfield_same (snd x) (snd y)) (r_fields _ _ a) (r_fields _ _ b).
+Definition oresults_same (a b : option (results jtbl jtbl)) : bool :=
+  match a, b with Some x, Some y => results_same x y | None, None => true | _, _ => false end.
+Record rcase := mkR {
+  rc_obj : results jtbl jtbl;
+  rc_json : option pyv;                      (* json.loads(r.to_json()); None = to_json raised *)
+  rc_back : option (results jtbl jtbl);      (* read_results(r.to_json()); None = raised *)
+  rc_equal : bool                            (* every attribute of the read-back object equals the original's *)
+}.
+Definition opyv_same (a b : option pyv) : bool :=
+  match a, b with Some x, Some y => pyv_same x y | None, None => true | _, _ => false end.
+Definition has_path (r : results jtbl jtbl) : bool :=
+  existsb (fun nf => match snd nf with FPath _ _ _ => true | _ => false end) (r_fields _ _ r).
+Definition rverdict (c : rcase) : list nat :=
+  let r := rc_obj c in
+  tag (opyv_same (option_map normalise (jenc r)) (rc_json c)) 40 ++
+  tag (match rc_json c with Some j => oresults_same (jdec j) (rc_back c) | None => true end) 41 ++
+  tag (rc_equal c) 42 ++
+  tag (results_supported jtbl jtbl r) 220 ++ tag (negb (has_path r)) 221.
